@@ -43,6 +43,7 @@ def run(chk):
     r5(chk, prog, m)
     r6(chk, prog, m)
     r7(chk, prog, m)
+    r8_root_slot(chk, prog, m)
     from . import c12
     mpz = prog.module("json_pointer.c")
     chk.require(mpz is not None, "json_pointer.c not in the build")
@@ -833,3 +834,45 @@ def r7(chk, prog, m):
         chk.note("copy stores the node found at 'from' by reference (known finding F5), so copy into a descendant of 'from' is refused "
                  "rather than performed; RFC 6902 section 4.5 would allow it with an independent copy")
     chk.floor(rid, n, 3000, "(from, path, move/copy) evaluations")
+
+
+# ---------------------------------------------------------------------------
+# R8 the caller's root slot follows every change of the root
+def r8_root_slot(chk, prog, m):
+    from ..heapuse import reach_avoiding
+    rid = "C13.R8"
+    chk.rule(rid, "an operation that replaces or removes the root does so in the caller's slot (*base): the operation handlers are given "
+                  "base itself, or - if json_patch_apply works on a local copy of the root - every return reachable after a handler "
+                  "call is preceded by a write of that copy back to *base (otherwise an early return leaves *base on a released root)")
+    f = m.functions.get("json_patch_apply")
+    chk.require(f is not None and not f.is_decl, "json_patch_apply not found")
+    chk.touched(f)
+    P = Paths(f, prog)
+    basep = None
+    for t, nm in f.params:
+        if t == "%struct.json_object**":
+            basep = nm
+    chk.require(basep is not None, "json_patch_apply has no json_object** parameter")
+    handlers = [i for i in f.instrs() if i.op == "call" and i.callee and i.callee.startswith("json_patch_apply_") and i.ops
+                and (i.ops[0].type or "").endswith("json_object**")]
+    if not handlers:
+        chk.undecided(rid, f.name, "root slot", f.entry.term.locstr(), "no call of an operation handler with a root slot argument found")
+        return
+    n = 0
+    bad = None
+    for c in handlers:
+        n += 1
+        a = c.ops[0]
+        if a.kind == "reg" and a.v == basep:
+            continue
+        w = reach_avoiding(f, c, lambda x: x.op == "ret", lambda x: x.op == "store" and P.path(x.ops[1]) == basep)
+        if w is not None and bad is None:
+            trail, ret = w
+            bad = (c, "%s works on %s, a copy of the root, and the function can return at %s (via %s) without writing it back to *%s: "
+                      "after an operation has replaced or removed the root, the caller is left with a pointer to the released one"
+                   % (c.callee, P.path(a), ret.locstr(), " -> ".join(trail[-3:]), basep))
+    if bad:
+        chk.refuted(rid, f.name, "root slot", bad[0].locstr(), bad[1])
+    else:
+        chk.proven(rid, f.name, "root slot", handlers[0].locstr(), "%d handler calls work on the caller's slot (or the copy is written back on every path)" % n)
+    chk.floor(rid, n, 3, "operation handler calls")
